@@ -147,7 +147,7 @@ func (l Laplace) Quantile(p float64) float64 {
 		panic(badPercentile)
 	}
 	if p < 0.5 {
-		return l.Mu + l.Scale*math.Log(1+2*(p-0.5))
+		return l.Mu + l.Scale*math.Log(2*p)
 	}
 	return l.Mu - l.Scale*math.Log(1-2*(p-0.5))
 }
